@@ -171,7 +171,8 @@ static void cache_part(int shard, int nshards, int depth, hz::Result& r) {
   reg.zones.clear();
   reg.zones["A"] = a.bytes; reg.zones["A2"] = a.bytes; reg.zones["B"] = b.bytes;
   reg.zones["BAD"] = std::string("TZif2") + std::string(60, '\0');
-  const std::vector<std::string> alpha = {"A", "A2", "B", "X", "Fixed/UTC+01:00:00", "UTC", "BAD", "Fixed/UTC+25:00:00"};
+  reg.zones["file:B"] = a.bytes;  // a DIFFERENT zone than "B" under a name that only differs by the file: prefix
+  const std::vector<std::string> alpha = {"A", "A2", "B", "X", "Fixed/UTC+01:00:00", "UTC", "BAD", "Fixed/UTC+25:00:00", "file:B", "Fixed/UTC+00:60:00"};
   const int na = static_cast<int>(alpha.size());
   // expected panels per name, from a first load in a fresh namespace
   const long long panel_t[] = {-1900000000LL, 0, 1193533200LL, 1206838800LL, 4102444800LL};
@@ -181,7 +182,7 @@ static void cache_part(int shard, int nshards, int depth, hz::Result& r) {
     cctz::time_zone::Impl::ClearTimeZoneMapTestOnly();
     cctz::time_zone tz;
     fresh_ok[n] = cctz::load_time_zone(n, &tz);
-    std::string s;
+    std::string s = "name=" + tz.name() + ";";
     for (long long t : panel_t) s += ans_tp(tz, t) + ";" + ans_cs(tz, tz.lookup(glue::tp_of(t)).cs) + ";";
     fresh_panel[n] = s;
   }
@@ -216,7 +217,7 @@ static void cache_part(int shard, int nshards, int depth, hz::Result& r) {
           if (ok != it->second.first || tz != it->second.second) r.violation("C14:cache:reload-differs", "sequence [" + desc + "]: reloading '" + n + "' returned a different result/identity than the first load", ra);
         }
         if (!ok && tz != cctz::utc_time_zone()) r.violation("C14:cache:failure-not-utc", "sequence [" + desc + "]: failed load of '" + n + "' did not leave UTC", ra);
-        const bool no_data = (n == "UTC" || n == "Fixed/UTC+01:00:00");
+        const bool no_data = (n == "UTC" || n == "Fixed/UTC+01:00:00" || n == "Fixed/UTC+00:60:00");
         const int calls = reg.calls.count(n) ? reg.calls[n] : 0;
         if (calls > (no_data ? 0 : 1)) r.violation("C14:cache:data-source-consulted-again", "sequence [" + desc + "]: data source consulted " + std::to_string(calls) + " time(s) for '" + n + "'", ra);
         loaded.insert(n);
@@ -226,7 +227,7 @@ static void cache_part(int shard, int nshards, int depth, hz::Result& r) {
       }
       // final panel on every loaded zone = panel of the same zone loaded first in a fresh namespace
       for (auto& kv : first) {
-        std::string s;
+        std::string s = "name=" + kv.second.second.name() + ";";
         for (long long t : panel_t) s += ans_tp(kv.second.second, t) + ";" + ans_cs(kv.second.second, kv.second.second.lookup(glue::tp_of(t)).cs) + ";";
         r.count("evaluations");
         if (s != fresh_panel[kv.first]) r.violation("C14:cache:answers-depend-on-load-history", "sequence [" + desc + "]: zone '" + kv.first + "' answers differently than when loaded first", {"--seq", desc});
@@ -251,7 +252,7 @@ int main(int argc, char** argv) {
     for (auto& z : zs) if (z.id == a.get("--zone")) hint_part(z, true, total);
     return hz::finish(a, total);
   }
-  const int depth = a.thorough() ? 6 : 5;
+  const int depth = a.thorough() ? 5 : 4;  // 10-name alphabet: 11 110 (111 110) sequences
   if (a.has("--seq")) { cache_part(0, 1, depth, total); return hz::finish(a, total); }
   const int nshards = 128;
   hz::PoolOpts po; po.workers = a.workers;
